@@ -1,45 +1,90 @@
-"""Registry: which harness runs decide which property, with the bounds of each tier."""
+"""Registry: which harness runs decide which property, with the bounds of each tier.
+
+A property is decided by every obligation whose name starts with its id, in every harness
+of its runs. The step harnesses (one per message handler) carry the obligations of several
+properties; their executions are shared between the properties through the content-hash
+memoisation of the driver."""
 
 DEC_BOUNDS = {"quick": {"digits": 45, "exp_lo": -12, "exp_hi": 12},
               "thorough": {"digits": 60, "exp_lo": -30, "exp_hi": 40}}
 
+# handler-level runs: rounding results are modelled relationally and products of two
+# symbolic decimals abstractly (round_abstract); the exact rounding/products are the subject
+# of the C07/C18/C19 kernels
 STEP_BOUNDS = {"all": {"round_abstract": 1},
                "quick": {"list": 1, "iter": 1, "exp_lo": -12, "exp_hi": 12, "digits": 45},
-               "thorough": {"list": 2, "iter": 2, "exp_lo": -20, "exp_hi": 20, "digits": 60}}
+               "thorough": {"list": 2, "iter": 2, "exp_lo": -12, "exp_hi": 12, "digits": 45}}
+BASKET_BOUNDS = {"all": {"round_abstract": 1, "dec_coeff_form": 1},
+                 "quick": {"list": 1, "iter": 1, "exp_lo": -12, "exp_hi": 12, "digits": 45},
+                 "thorough": {"list": 2, "iter": 2, "exp_lo": -12, "exp_hi": 12, "digits": 45}}
+
+# marketplace (without BuyDirect) is cheap enough for two orders / two expired orders per
+# message in the quick tier: duplicate ids inside one message are in range
+MARKET_BOUNDS = {"all": {"round_abstract": 1},
+                 "quick": {"list": 2, "iter": 2, "exp_lo": -12, "exp_hi": 12, "digits": 45},
+                 "thorough": {"list": 2, "iter": 2, "exp_lo": -12, "exp_hi": 12, "digits": 45}}
 
 HASH_BOUNDS = {"quick": {"hash_lo": 20, "hash_hi": 64, "hash_step": 22},
                "thorough": {"hash_lo": 20, "hash_hi": 64, "hash_step": 1}}
+
+ID_BOUNDS = {"quick": {"seq_digits": 5, "denom_lo": 27, "denom_hi": 30},
+             "thorough": {"seq_digits": 20, "denom_lo": 25, "denom_hi": 34}}
+
+COST_BOUNDS = {"quick": {"ask_digits": 12, "qty_digits": 8, "exp_lo": -8, "exp_hi": 4},
+               "thorough": {"ask_digits": 14, "qty_digits": 10, "exp_lo": -8, "exp_hi": 4}}
+
+# the step harnesses that are cheap enough for the quick tier
+QUICK_MARKET = "Step_Market(Sell|UpdateSellOrders|CancelSellOrder|AddAllowedDenom|RemoveAllowedDenom|GovSetFeeParams|GovSendFromFeePool|PruneSellOrders)"
 
 
 def step_runs():
     return [
         {"module": "ecocredit", "pkg": "./base/keeper", "harness": "Step_.*", "bounds": STEP_BOUNDS},
-        {"module": "ecocredit", "pkg": "./basket/keeper", "harness": "Step_.*", "bounds": STEP_BOUNDS},
-        {"module": "ecocredit", "pkg": "./marketplace/keeper", "harness": "Step_.*", "bounds": STEP_BOUNDS},
+        {"module": "ecocredit", "pkg": "./basket/keeper", "harness": "Step_.*", "bounds": BASKET_BOUNDS,
+         "timeout_ms": {"quick": 20000, "thorough": 60000}},
+        {"module": "ecocredit", "pkg": "./marketplace/keeper", "harness": {"quick": QUICK_MARKET, "thorough": "Step_.*"},
+         "bounds": MARKET_BOUNDS},
     ]
 
 
+def kernel_cost():
+    return {"module": "ecocredit", "pkg": "./marketplace/keeper", "harness": "(C07|C18)_.*", "bounds": COST_BOUNDS,
+            "timeout_ms": {"quick": 60000, "thorough": 120000}}
+
+
+STEP_TECH = "one-step inductive invariant over all message handlers: go/ssa symbolic execution of the real handlers on model stores with arbitrary pre-state + SMT (z3 5.1 / z3 4.8 / cvc5)"
+
 PROPS = {
-    "C19": {
-        "title": "decimal arithmetic",
-        "runs": [{"module": "types", "pkg": "./math", "harness": "C19_.*", "bounds": DEC_BOUNDS}],
-        "all_obligations": True,
-        "technique": "go/ssa symbolic execution of types/math over GDA summaries + SMT (z3/z3-new/cvc5)",
-    },
-    "C15": {
-        "title": "IRI <-> content hash bijection",
-        "runs": [{"module": "data", "pkg": ".", "harness": "C15_.*", "bounds": HASH_BOUNDS}],
-        "technique": "go/ssa symbolic execution of ToIRI/ParseIRI/Validate on symbolic bytes + SMT; base58check as an explicit injective encoding",
-    },
-    "C20": {
-        "title": "intertx SubmitTx",
-        "runs": [{"module": "intertx", "pkg": "./keeper", "harness": "C20_.*", "bounds": {}}],
-        "technique": "go/ssa symbolic execution of SubmitTx against recording stubs with symbolic results + SMT",
-    },
-    "C01": {"title": "credit conservation", "runs": step_runs(), "technique": "one-step inductive invariant, go/ssa symbolic execution + SMT"},
-    "C02": {"title": "issuance accounting", "runs": step_runs(), "technique": "one-step inductive invariant, go/ssa symbolic execution + SMT"},
-    "C03": {"title": "ownership safety", "runs": step_runs(), "technique": "one-step frame condition with skolem account, go/ssa symbolic execution + SMT"},
-    "C04": {"title": "retirement permanence", "runs": step_runs(), "technique": "one-step monotonicity, go/ssa symbolic execution + SMT"},
+    "C01": {"title": "credit conservation", "runs": step_runs(), "technique": STEP_TECH},
+    "C02": {"title": "issuance accounting", "runs": step_runs(), "technique": STEP_TECH},
+    "C03": {"title": "ownership safety", "runs": step_runs(), "technique": STEP_TECH + "; frame condition for a skolem non-signer account"},
+    "C04": {"title": "retirement permanence", "runs": step_runs(), "technique": STEP_TECH + "; monotonicity per step"},
+    "C05": {"title": "basket tokens fully backed", "runs": step_runs(), "technique": STEP_TECH},
+    "C06": {"title": "escrow equals open sell orders", "runs": step_runs(), "technique": STEP_TECH},
+    "C07": {"title": "BuyDirect settles exactly", "runs": [kernel_cost()] + step_runs(),
+            "technique": "go/ssa symbolic execution of the cost/fee kernel against exact rationals + SMT (non-linear real/integer arithmetic), plus the BuyDirect step harness"},
+    "C08": {"title": "authorisation and sealed batches", "runs": step_runs(), "technique": STEP_TECH + "; role predicate on the pre-state for every successful path"},
+    "C09": {"title": "genesis export/validate/re-import (kernel: state validators are handler invariants)", "runs": step_runs(),
+            "technique": STEP_TECH + "; the real Validate() of each state type (merged to one formula) asserted on every written row"},
+    "C11": {"title": "basket admission, oldest first, auto-retire", "runs": step_runs(),
+            "technique": STEP_TECH + "; Take on finite-witness iterators ordered by the start-date index"},
+    "C12": {"title": "expired orders refunded, begin block never fails", "runs": step_runs(), "technique": STEP_TECH + "; PruneSellOrders on finite-witness iterators"},
+    "C13": {"title": "bridge safety", "runs": step_runs(), "technique": STEP_TECH},
+    "C14": {"title": "identifiers",
+            "runs": [{"module": "ecocredit", "pkg": "./base,./basket", "harness": "C14_.*", "bounds": ID_BOUNDS}] + step_runs(),
+            "technique": "go/ssa symbolic execution of the formatters/validators/parsers on symbolic bytes (regex as symbolic NFA) + SMT; handler level through lemma summaries"},
+    "C15": {"title": "IRI <-> content hash bijection",
+            "runs": [{"module": "data", "pkg": ".", "harness": "C15_.*", "bounds": HASH_BOUNDS}],
+            "technique": "go/ssa symbolic execution of ToIRI/ParseIRI/Validate on symbolic bytes + SMT; base58check as an explicit injective encoding"},
+    "C18": {"title": "fees exact; accepted parameters never disable a feature", "runs": [kernel_cost()] + step_runs(),
+            "technique": "go/ssa symbolic execution: accepted(p) and pre(op) => op succeeds, negated and solved with p symbolic; fee charging on the CreateClass / basket Create step harnesses"},
+    "C19": {"title": "decimal arithmetic",
+            "runs": [{"module": "types", "pkg": "./math", "harness": "C19_.*", "bounds": DEC_BOUNDS}],
+            "all_obligations": True,
+            "technique": "go/ssa symbolic execution of types/math over GDA summaries of apd + SMT"},
+    "C20": {"title": "intertx SubmitTx",
+            "runs": [{"module": "intertx", "pkg": "./keeper", "harness": "C20_.*", "bounds": {}}],
+            "technique": "go/ssa symbolic execution of SubmitTx against recording stubs with symbolic results + SMT"},
 }
 
 LEVEL_TEXT = ("Bounded symbolic model checking of the real code: the harness and every regen-ledger function it reaches are "
